@@ -216,8 +216,11 @@ Proof.
     + rewrite CollectionProofs.mbind_get in H. eapply (fr_then_remove_eff _ n); [|exact H]. intros d0. fr.
     + eapply (fr_then_remove_eff _ n); [|exact H]. intros d0. fr.
     + apply mbind_ok_inv in H. destruct H as (d1 & o1 & [] & o3 & H1 & H & ->).
+      apply mbind_ok_inv in H. destruct H as (d3 & o4 & [] & o5 & H3 & H & ->).
       eapply act_eff_fr_l; [|eapply errordown_eff; exact H].
-      assert (X : from FR d (d0 <- get ;; put (d_set_shouldstop d0 true))) by fr. exact (X _ _ _ H1).
+      assert (X : from FR d (d0 <- get ;; put (d_set_shouldstop d0 true))) by fr.
+      assert (X3 : from FR d1 d_triggershutdown) by fr.
+      exact (FR_trans _ _ _ _ _ (X _ _ _ H1) (X3 _ _ _ H3)).
   - eapply errordown_eff; exact H.
 Qed.
 
@@ -691,9 +694,15 @@ Proof.
   cbn [d_handle]. unfold d_worker_workerfinished. intros H.
   assert (X : forall d0, d_shouldstop d0 = true ->
               from (lift2 stop_mono) d0 (d_worker_errordown n)) by (intros d0 _; apply eq_mono; apply eq_errordown).
-  unfold mbind, hook, emit, get, put in H. cbn [app] in H.
-  destruct (d_worker_errordown n (d_set_shouldstop d true)) as [[d2 o2] r2] eqn:E2.
-  inversion H; subst. exact (X (d_set_shouldstop d true) eq_refl _ _ _ E2 eq_refl).
+  apply DSessionProofs.mbind_inv in H. destruct H as [(d0 & o0 & [] & oR & H0 & H & ->)|(e & H0 & _)]; [|inversion H0].
+  unfold hook, emit in H0. inversion H0; subst d0 o0. clear H0.
+  apply DSessionProofs.mbind_inv in H. destruct H as [(d1 & o1 & [] & oR2 & H1 & H & ->)|(e & H1 & _)].
+  2:{ unfold mbind, get, put in H1. inversion H1. }
+  unfold mbind, get, put in H1. inversion H1; subst d1 o1. clear H1.
+  apply DSessionProofs.mbind_inv in H. destruct H as [(d3 & o3 & [] & oR3 & H3 & H4 & ->)|(e & H3 & ->)].
+  - pose proof (proj1 (keep_triggershutdown _ _ _ _ H3)) as K. cbn [d_shouldstop d_set_shouldstop] in K.
+    exact (X d3 K _ _ _ H4 K).
+  - pose proof (proj1 (keep_triggershutdown _ _ _ _ H3)) as K. exact K.
 Qed.
 
 (* ---- load: known nodes are active nodes, until a stop is requested ---- *)
